@@ -268,6 +268,8 @@ class Check:
             "categories": self.categories,
             "drift": self.drift,
             "timeouts": self.timeouts,
+            "max_stimulus_s": round(_MAXDT.value, 2),
+            "stimulus_timeout_s": HANG_T,
             "known_finding_hits": {self.known[i]["what"]: n for i, n in self.known_hits.items()},
             "notes": self.notes,
         }
@@ -283,18 +285,75 @@ class Check:
 
 
 # ---------------------------------------------------------------- parallel execution of the real code
-def _init_worker():
-    pass
+class StimulusTimeout(BaseException):
+    """raised by the per-stimulus alarm; a BaseException so that the drivers' `except Exception` does not swallow it"""
+
+
+class HangFound(Exception):
+    def __init__(self, fn, stimulus, seconds):
+        Exception.__init__(self, "%s gave no answer within %ds" % (fn, seconds))
+        self.fn, self.stimulus, self.seconds = fn, stimulus, seconds
+
+
+# A call of the library that does not come back: every stimulus of a clean tree answers in well under a minute (the slowest one is
+# printed in the evidence as max_stimulus_s), so a stimulus that is still running after HANG_T seconds - twice, the second time alone -
+# is reported as a violation ("no answer") instead of hanging the whole check.
+HANG_T = float(os.environ.get("VERIF_STIMULUS_TIMEOUT", "300"))
+HANG_LIMIT = 2
+_HANGS = mp.Value("i", 0)
+_MAXDT = mp.Value("d", 0.0)
+_HANG = "__hang__"
+
+
+def _alarm(signum, frame):
+    raise StimulusTimeout()
+
+
+def _guarded(fn, x):
+    import signal
+    if _HANGS.value >= HANG_LIMIT:
+        return {_HANG: "skipped"}
+    signal.signal(signal.SIGALRM, _alarm)
+    t0 = time.time()
+    signal.setitimer(signal.ITIMER_REAL, HANG_T)
+    try:
+        return fn(x)
+    except StimulusTimeout:
+        with _HANGS.get_lock():
+            _HANGS.value += 1
+        return {_HANG: "timeout"}
+    finally:
+        signal.setitimer(signal.ITIMER_REAL, 0)
+        dt = time.time() - t0
+        if dt > _MAXDT.value:
+            with _MAXDT.get_lock():
+                _MAXDT.value = max(_MAXDT.value, dt)
+
+
+def _is_hang(r):
+    return isinstance(r, dict) and _HANG in r
 
 
 def pmap(fn, items, procs=16, chunksize=None):
+    import functools
     items = list(items)
     if not items:
         return []
-    if len(items) < 8:
-        return [fn(x) for x in items]
-    with mp.get_context("fork").Pool(min(procs, len(items))) as pool:
-        return pool.map(fn, items, chunksize or max(1, len(items) // (procs * 8)))
+    g = functools.partial(_guarded, fn)
+    _HANGS.value = 0
+    ctx = mp.get_context("fork")
+    with ctx.Pool(min(procs, len(items))) as pool:
+        res = pool.map(g, items, chunksize or max(1, len(items) // (procs * 8)))
+    bad = [i for i, r in enumerate(res) if _is_hang(r)]
+    if bad:
+        # confirm alone (no competing workers); a second timeout is a hang, otherwise every postponed stimulus is run again
+        for n, i in enumerate(bad):
+            _HANGS.value = 0
+            with ctx.Pool(1) as pool:
+                res[i] = pool.map(g, [items[i]])[0]
+            if _is_hang(res[i]):
+                raise HangFound(getattr(fn, "__module__", "?") + "." + getattr(fn, "__name__", "?"), items[i], int(HANG_T))
+    return res
 
 
 def run_check(fn, pid, argv):
@@ -306,6 +365,12 @@ def run_check(fn, pid, argv):
     try:
         ck = Check(pid, tier)
         fn(ck)
+        rc = ck.finish()
+    except HangFound as h:
+        path = ck.write_replay({"kind": "hang", "property": pid, "fn": h.fn, "stimulus": h.stimulus, "timeout_s": h.seconds})
+        st = h.stimulus if isinstance(h.stimulus, dict) else {}
+        ck.violations.append(("%s.no_answer_within_%ds" % (pid, h.seconds), {"alg": st.get("alg"), "fn": h.fn, "stimulus": json.dumps(h.stimulus)[:200]}, path))
+        ck.note("the check stopped at the first call of the library that gave no answer (twice, the second time alone): %s" % h)
         rc = ck.finish()
     except (Machinery, tlc.TLCError) as e:
         print("MACHINERY-FAILURE property=%s %s" % (pid, e), flush=True)
